@@ -25,6 +25,15 @@ import TracklibVerif.Drv.Util
                                 → the same for `findStopsGlobal` with ITS three tests (`stopPredGlobal`): `dist[i][e]`, `dur[i][e]`,
                                   `circ[i][e]` (a negative entry = `minCircle` returned `None`) are scalars compared by the model with
                                   `<diameter>` and `<duration>` (the harness passes squared lengths against the squared diameter)
+  stopsd q <diameter> <duration> <downsampling> <track> <resampled> <circ2> <circA> <cx> <cy>
+                                → `findStopsGlobalPyA` (= `findStopsGlobalPy`, theorem `find_stops_array_form`), from the caller's arguments: `<track>` and `<resampled>` (`_` when not asked for)
+                                  are rows `x,y,z,t`; the model chooses the track (`downsampling > 1`), computes the squared planimetric
+                                  distances and the durations itself and applies the three tests and the final filter;
+                                  `circ2[i][e]` / `circA[i][e]` = squared `2 * radius` of `minCircle` in the row loops / in the final
+                                  filter (negative = `None`); `cx[i][e]`, `cy[i][e]` = centre of the circle of `circ2[i][e]`. Reply
+                                  `<reward matrix> <segmentation> <stops> <enc>`, a stop being `a-e:id_ini:id_end:nb_points`, `<enc>` = 1
+                                  iff every circle of `circ2` encloses the observations of its segment in the plane (`enclosedB`: the
+                                  hypothesis of `stops_criterion` / `find_stops_global`, checked here); exact rationals only.
 errors: `err:index` (one row: `backward` indexes an empty table), `err:value` (no row: negative dimension). -/
 namespace TV.Drv.C12
 open TV.Partition TV.Drv
@@ -133,6 +142,33 @@ def runStopsG {α} [Add α] [LT α] [DecidableLT α] (zero : α) (shw : α → S
     let st := stopsReported zero sq p (fun a e => fn 0 keep a e == 1) size
     s!"{showListList shw mat} {showList toString (stopsSegmentation zero sq p size)} {joinWith "," (st.map (fun ae => s!"{ae.1}-{ae.2}"))}"
 
+def fix? {α} (r : List α) : Option (Fix α) :=
+  match r with
+  | [x, y, z, t] => some ⟨x, y, z, t⟩
+  | _ => none
+
+def runStopsD (diameter duration ds : Rat) (track resampled circ circA cxs cys : List (List Rat)) : String :=
+  match track.mapM fix?, resampled.mapM fix? with
+  | some tr0, some rs =>
+    let tr := stopsTrack (1 : Rat) ds tr0 rs
+    let size := tr.length
+    if !(square circ && square circA && circ.length == size && circA.length == size
+          && square cxs && square cys && cxs.length == size && cys.length == size) then "bad-request"
+    else
+      let sq : Nat → Rat := fun n => ((n * n : Nat) : Rat)
+      let opt : List (List Rat) → Nat → Nat → Option Rat := fun m i e => let v := fn 0 m i e; if v < 0 then none else some v
+      match findStopsGlobalPyA (0 : Rat) 1 sq (fun n => (n : Rat)) tr0 rs (opt circ) (opt circA) diameter duration ds with
+      | .error e => showErr e
+      | .ok (seg, st, ids) =>
+        let f := getFix (0 : Rat) tr
+        let p := stopPredTrack (0 : Rat) f (opt circ) diameter duration
+        let C := stopsMatrix (0 : Rat) sq p size
+        let mat := (List.range size).map (fun i => (List.range size).map (fun j => C i j))
+        let items := (st.zip ids).map (fun x => s!"{x.1.1}-{x.1.2}:{showRat x.2.1}:{showRat x.2.2.1}:{x.2.2.2}")
+        let enc := enclosedB (4 : Rat) f (opt circ) (fn 0 cxs) (fn 0 cys) size
+        s!"{showListList showRat mat} {showList toString seg} {joinWith "," items} {showBool enc}"
+  | _, _ => "bad-request"
+
 def handle (cmd : String) (args : List String) : String :=
   match args with
   | [s, mat] =>
@@ -182,6 +218,13 @@ def handle (cmd : String) (args : List String) : String :=
         runStopsG (0.0 : Float) showFloat (fun n => (n * n).toFloat) a b c d e k
       | _, _, _, _, _, _ => "bad-request"
     else "bad-request"
+  | [s, dia, du, ds, track, resampled, circ, circA, cxs, cys] =>
+    if cmd != "stopsd" || s != "q" then "bad-request"
+    else
+      match rat? dia, rat? du, rat? ds, ratListList? track, ratListList? resampled, ratListList? circ, ratListList? circA,
+        ratListList? cxs, ratListList? cys with
+      | some a, some b, some c, some t, some r, some e, some k, some x, some y => runStopsD a b c t r e k x y
+      | _, _, _, _, _, _, _, _, _ => "bad-request"
   | [s, mode, sig, glob, wd, wg] =>
     match mode.toNat? with
     | none => "bad-request"
